@@ -257,7 +257,7 @@ PENDING = {
     "C19": {
         "lean_targets": ["Pep508.Model.ReqParse"],
         "theorems": ["Pep508.C06.marker_tree_never_panics"],
-        "suites": [{"name": "req", "args": ["C19"]}],
+        "suites": [{"name": "req", "args": ["C19"]}, {"name": "req", "args": ["C19"], "features": "ext"}],
         "rule": "33 shapes (scheme URLs, absolute/relative/Windows/UNC paths, `.`/`..`, every pip archive extension incl. two-part ones, near misses such as `foo.tar.gz.sig`, `x.tar.gz2`) x six "
                 "suffixes (none, extras, marker, both, spaced extras, trailing blanks): never accepted as a named requirement and rejected with the unsupported-requirement kind; every outcome "
                 "is compared with the Lean model (looksLikeUnnamed, splitScheme, splitExtras, looksLikeArchive with the std::path extension rules); split_scheme / split_extras are compared "
